@@ -207,6 +207,16 @@ def r01b(ctx):
                           f"dropped from a run of equal neighbours) the suffix overlaps the prefix, an element is trimmed "
                           f"twice and the remaining difference is lost (both documents render as identical)")
     if not pre or not suf:
+        # the scans are written in a form this analysis does not read (index loops, takewhile, helpers).  One necessary condition
+        # can still be decided: trimming treats the two sequences alike - every use of one has a mirror-image use of the other
+        odd = _trim_asymmetry(m, init, from_seq_p, to_seq_p)
+        if odd is not None:
+            node_, mine, side = odd
+            ctx.violation("R01b", f, "EditDistance.__init__", node_, "trimming treats both sequences alike",
+                          f"the prefix/suffix trimming uses the {side} sequence as `{mine}` and the other sequence in no matching way: a bound "
+                          f"or slice that accounts for the shared prefix on one side only lets the suffix overlap the prefix on the other "
+                          f"(an element trimmed twice, the remaining difference lost)")
+            return
         raise Inconclusive("EditDistance.__init__: prefix/suffix trimming loops not recognised")
     for attr, src in (("from_seq", from_seq_p), ("to_seq", to_seq_p)):
         st = [s for s in walk_no_nested(init.node) if isinstance(s, (ast.Assign, ast.AnnAssign))
@@ -564,6 +574,91 @@ def _same_guard(a, b):
 
 
 # ------------------------------------------------------------------------------------------------ R01d
+def _trim_asymmetry(m, init, fs, ts):
+    """Side symmetry of the trimming region of EditDistance.__init__ (the statements before self.from_seq / self.to_seq are
+    assigned, and the helpers they hand both sequences to): each occurrence of a sequence (or of a local computed from that
+    sequence alone) is described by the largest enclosing expression / statement that does not mention the other sequence, with
+    the sequence replaced by a placeholder; the two multisets of descriptions must be equal.  (node, description, side) of an
+    unmatched use, or None."""
+    import collections
+    from ..astx import _set_parents, clone
+
+    def region_of(fn, a, b, stop_at_seq_assign):
+        body = []
+        for st in fn.body:
+            if stop_at_seq_assign and isinstance(st, (ast.Assign, ast.AnnAssign)) and \
+                    self_attr(st.targets[0] if isinstance(st, ast.Assign) else st.target) in ("from_seq", "to_seq"):
+                break
+            body.append(st)
+        return body
+
+    def describe(stmts, a, b, depth=0):
+        sides = {a: "A", b: "B"}
+        sigs = {"A": [], "B": []}
+        # locals computed from one side alone belong to that side
+        changed = True
+        while changed:
+            changed = False
+            for st in stmts:
+                for x in ast.walk(st):
+                    if isinstance(x, ast.Assign) and len(x.targets) == 1 and isinstance(x.targets[0], ast.Name) and x.targets[0].id not in sides:
+                        used = {sides[n.id] for n in ast.walk(x.value) if isinstance(n, ast.Name) and n.id in sides}
+                        if len(used) == 1:
+                            sides[x.targets[0].id] = used.pop()
+                            changed = True
+
+        def mentions(node, side):
+            return any(isinstance(n, ast.Name) and sides.get(n.id) == side for n in ast.walk(node))
+        for st in stmts:
+            for n in ast.walk(st):
+                if not (isinstance(n, ast.Name) and n.id in sides and isinstance(n.ctx, ast.Load)):
+                    continue
+                side = sides[n.id]
+                other = "B" if side == "A" else "A"
+                e = n
+                while getattr(e, "_parent", None) is not None and not isinstance(e, ast.stmt) and not mentions(e._parent, other) \
+                        and not isinstance(e._parent, (ast.FunctionDef, ast.For, ast.While, ast.If, ast.With, ast.Try)):
+                    e = e._parent
+                c = clone(e)
+                for y in ast.walk(c):
+                    if isinstance(y, ast.Name):
+                        if sides.get(y.id) == side:
+                            y.id = "_"
+                        elif isinstance(y.ctx, ast.Store):
+                            y.id = "$"
+                txt = ast.unparse(c) if not isinstance(c, ast.stmt) else ast.unparse(c).split("\n")[0]
+                sigs[side].append((txt, n))
+            # helpers that receive both sequences
+            for c in ast.walk(st):
+                if isinstance(c, ast.Call) and depth < 2:
+                    pos = {sides[x.id]: i for i, x in enumerate(c.args) if isinstance(x, ast.Name) and x.id in (a, b)}
+                    if len(pos) == 2:
+                        nm = (dotted(c.func) or "").rsplit(".", 1)[-1]
+                        h = m.functions.get(f"{init.module}.{nm}") or (m.method(init.cls, nm) if init.cls else None)
+                        if h is not None and h.node is not init.node:
+                            ps = func_params(h.node)
+                            off = 1 if ps and ps[0] in ("self", "cls") and not isinstance(c.func, ast.Name) else 0
+                            try:
+                                sub = describe(h.node.body, ps[pos["A"] + off], ps[pos["B"] + off], depth + 1)
+                            except IndexError:
+                                continue
+                            for k in sub:
+                                sigs[k] += sub[k]
+        return sigs
+    sigs = describe(region_of(init.node, fs, ts, True), fs, ts)
+    ca = collections.Counter(t for t, _ in sigs["A"])
+    cb = collections.Counter(t for t, _ in sigs["B"])
+    if ca == cb:
+        return None
+    for (txt, n) in sigs["A"]:
+        if ca[txt] > cb[txt]:
+            return n, txt, "first"
+    for (txt, n) in sigs["B"]:
+        if cb[txt] > ca[txt]:
+            return n, txt, "second"
+    return None
+
+
 def r01d(ctx):
     m = ctx.model
     ctx.rule("R01d", "FixedKeyDictNode._child_edits: every own pair yields exactly one edit (match/pair-edit if the key is "
